@@ -160,6 +160,10 @@ func Input(l *InputSharedVars, g *GlobalVarsMain, hPath *HFilePath, driConfig *C
 
 				g.DRAIDEP = currentSoil.DRAIDEP
 				g.DRAIFAK = currentSoil.DRAIFAK
+				if g.DRAIFAK > 1 {
+					// the soil file column is headed "Drainage%": a value above 1 is a percentage, not a fraction
+					g.DRAIFAK = g.DRAIFAK / 100
+				}
 				g.UKT = currentSoil.UKT
 				g.BART = currentSoil.BART
 				g.LD = currentSoil.LD
